@@ -115,6 +115,7 @@ fn drive(
         eval::run_cases(ctx, eng, sub, corpus_cases, slot, oracle);
     }
     if ctx.is_replay() {
+        eval::run_cases(ctx, eng, &format!("{sub}-generated"), vec![], slot, oracle);
         return;
     }
     for chunk in gen_progs.chunks(CHUNK) {
@@ -592,6 +593,22 @@ fn dev_gen(mode: &str, n: usize, seed: u64) {
 
 fn main() {
     let a: Vec<String> = std::env::args().collect();
+    if a.get(1).map(|s| s.as_str()) == Some("--warm") {
+        // build the corpus batch (incl. the network topologies); a build problem here is reported
+        // again (as inconclusive) by the check that needs it, so never fail the engine build on it
+        let pool = pool();
+        let specs: Vec<ProgSpec> = pool.corpus.iter().map(|p| p.spec.clone()).collect();
+        let rep = batch::build("corpus", &specs, &net::specials());
+        eprintln!(
+            "hydro: corpus batch {} in {:.1}s ({} programs ok, {} not built{})",
+            if rep.infra.is_some() { "FAILED" } else { "ready" },
+            rep.build_secs,
+            rep.ok.len(),
+            rep.failed.len(),
+            rep.infra.map(|i| format!("; {}", i.lines().next().unwrap_or(""))).unwrap_or_default()
+        );
+        return;
+    }
     if a.get(1).map(|s| s.as_str()) == Some("--dev-gen") {
         dev_gen(&a[2], a[3].parse().unwrap(), a[4].parse().unwrap());
         return;
